@@ -135,6 +135,29 @@ func (e *Engine) Discharge(obls []*Obligation, timeoutS, par int, keepScripts st
 				os.WriteFile(filepath.Join(keepScripts, sanitize(ob.Name)+".smt2"), []byte(script), 0o644)
 			}
 			r := solveScript(dir, ob.Name, script, timeoutS)
+			if r.status != "unsat" && r.status != "sat" && ob.Kind != "vacuity" {
+				// Nonlinear integer terms (division or product of two symbolic
+				// values) make the solvers give up on goals that do not depend
+				// on them at all. Retry WITHOUT the assumptions that contain such
+				// terms: proving the goal from fewer assumptions is sound.
+				var lin []*Term
+				dropped := 0
+				for _, a := range ob.Assumes {
+					if nonlinearTerm(a) {
+						dropped++
+					} else {
+						lin = append(lin, a)
+					}
+				}
+				if dropped > 0 && !nonlinearTerm(ob.Goal) {
+					s2 := e.d.Script(lin, ob.Goal, true)
+					if r2 := solveScript(dir, ob.Name+"~lin", s2, timeoutS); r2.status == "unsat" {
+						r2.solver += " (without nonlinear assumptions)"
+						r2.secs += r.secs
+						r = r2
+					}
+				}
+			}
 			ob.Solver = r.solver
 			ob.TimeS = r.secs
 			ob.Status = r.status
@@ -159,6 +182,36 @@ func (ob *Obligation) Discharged() bool {
 	switch ob.Status {
 	case "unsat", "trivial", "static", "reachable":
 		return true
+	}
+	return false
+}
+
+// nonlinearTerm: does t contain a division/modulo by, or a product of, two
+// non-literal integer terms?
+func nonlinearTerm(t *Term) bool {
+	if t == nil {
+		return false
+	}
+	switch t.Op {
+	case "div", "mod":
+		if len(t.Args) == 2 && t.Args[1].Op != "lit" {
+			return true
+		}
+	case "*":
+		n := 0
+		for _, a := range t.Args {
+			if a.Op != "lit" {
+				n++
+			}
+		}
+		if n > 1 {
+			return true
+		}
+	}
+	for _, a := range t.Args {
+		if nonlinearTerm(a) {
+			return true
+		}
 	}
 	return false
 }
